@@ -14,14 +14,18 @@ RULE = ('edit histories (enter / overwrite / bare-number delete / DELETE a-b, a-
         '(every observable is compared after every operation); non-trivial = an operation that changes the program '
         'or is refused; profiles: mixed, descending (front insertion), long lines in a small memory (Out of memory), '
         'renum (RENUM [new][,old][,step] with new at/around the highest kept line, old on/between lines, steps 0/1/10/large '
-        'reaching past 65529; after an accepted RENUM the reference is re-read and the history continues)')
+        'reaching past 65529, refused only at a later line; after an accepted RENUM the reference is re-read and the '
+        'history continues); refused-then-edit (every kind of refused command: RENUM overflow/overlap/step 0, DELETE and '
+        'bare number of missing lines, LOAD/MERGE of a missing file, EDIT/AUTO/syntax errors, Out of memory, each '
+        'followed by edits aimed at the top and the middle of the program)')
 EXPLANATION = ('theorems (PcbV.Props.C13): representation invariant Inv (bytes = serialisation of a strictly sorted record '
                'list, dict = its offset table, memory bound) holds initially and is preserved by store/delete/new for '
                'well-formed bodies; Inv gives dict = rescan(bytes), increasing offsets, correct next-address fields, '
                '00 00 00 end; refinement abs(op s) = specOp(abs s) incl. error cases, lifted to all histories; LIST = '
                'ascending spec listing; jump lands on the record with that line field; the link chain visits all '
                'lines and ends at the terminator.  Correspondence: real Session histories vs the compiled model after '
-               'every op (status, size, bytes, line_numbers, rebuild_line_dict, PEEK chain, LIST order); oracle: a '
+               'every op (status, size, bytes, line_numbers, rebuild_line_dict on a copy, PEEK chain, LIST order); refused '
+               'commands (rejected_edit_keeps_program / rejected_edit_spec) leave bytes and index unchanged; oracle: a '
                'Python dict line -> (tokens, listing) with its own serialiser')
 TRUSTED_BASE = ['model PcbV.Model.Program: hand transcription of program.py (store_line, delete, find_pos_line_dict, '
                 'update_line_dict, rebuild_line_dict, list_lines, erase) and codestream.py TokenisedStream.skip_to',
@@ -117,6 +121,40 @@ def gen_text(rng, tag):
     return text[:244], tagged
 
 
+PROBES = ['between-top', 'between-top', 'replace-top', 'replace-second', 'between-any', 'replace-any', 'above-top',
+          'below-first']
+
+
+def probe_line(rng, nums, kind):
+    """Line number for an edit aimed at a particular place of the program holding the lines `nums`."""
+    if not nums:
+        return rng.choice([0, 10, 65529, rng.randrange(65530)])
+    gaps = [(a, b) for a, b in zip(nums, nums[1:]) if b - a > 1]
+    if kind == 'between-top' and len(nums) >= 2 and nums[-1] - nums[-2] > 1:
+        a, b = nums[-2], nums[-1]
+        return rng.choice([(a + b) // 2, a + 1, b - 1])
+    if kind in ('between-top', 'between-any') and gaps:
+        a, b = rng.choice(gaps) if kind == 'between-any' else gaps[-1]
+        return rng.choice([(a + b) // 2, a + 1, b - 1])
+    if kind == 'replace-second' and len(nums) >= 2:
+        return nums[-2]
+    if kind == 'replace-any':
+        return rng.choice(nums)
+    if kind == 'above-top' and nums[-1] < 65529:
+        return rng.choice([nums[-1] + 1, 65529, min(65529, nums[-1] + 10)])
+    if kind == 'below-first' and nums[0] > 0:
+        return rng.choice([nums[0] - 1, 0])
+    return nums[-1]
+
+
+def failing_cmd(rng, nums):
+    """An editing command that must be refused whatever the program is."""
+    missing = next(n for n in (rng.randrange(65530), 7, 65529, 65528, 3, 1, 0, 2) if n not in nums)
+    return rng.choice([b'LOAD "NOSUCH"', b'MERGE "NOSUCH"', b'LOAD "NOSUCH.BAS",R', b'CHAIN MERGE "NOSUCH"',
+                       b'EDIT %d' % missing, b'AUTO 10,', b'65530 PRINT 1', b'RENUM 65530', b'DELETE 10,20',
+                       b'DELETE 65530', b'RENUM 10,,', b'%d' % missing, b'DELETE %d' % missing])
+
+
 def gen_history(rng, nops, profile):
     """List of ops: ['s', n, text, tagged, tag] | ['b', n] | ['d', a|None, b|None] | ['n'] |
     ['r', new|None, old|None, step|None] (RENUM)"""
@@ -145,6 +183,8 @@ def gen_history(rng, nops, profile):
         if profile == 'renum':
             if k < 0.15:
                 ops.append(['r', 'auto', 'auto', 'auto'])
+                if rng.random() < 0.6:
+                    ops.append(['p', rng.choice(PROBES)])
                 continue
             k = rng.random()
         if profile == 'smallmem':
@@ -175,12 +215,21 @@ def gen_history(rng, nops, profile):
                 ops.append(['d', a, None])
             else:
                 ops.append(['d', None, b])
-        elif k < 0.985 or profile == 'smallmem':
+        elif k < 0.975 or profile == 'smallmem':
             ops.append(['n'])
-        else:
+        elif k < 0.99:
             # RENUM; the arguments are chosen when the operation is reached (they depend on the lines present
             # at that point) and written back into the op, so that a replay has the concrete numbers
             ops.append(['r', 'auto', 'auto', 'auto'])
+        else:
+            # an editing command that must fail (missing file, missing line, bad syntax) and change nothing
+            ops.append(['f', 'auto'])
+        # a command that may have been refused is followed, now and then, by an edit aimed at the lines
+        # around the top / the middle of the program (also chosen when it is reached)
+        if ops[-1][0] in ('r', 'd', 'b', 'f') and rng.random() < (0.6 if ops[-1][0] in ('r', 'f') else 0.25):
+            ops.append(['p', rng.choice(PROBES)])
+        elif profile == 'smallmem' and ops[-1][0] == 's' and rng.random() < 0.12:
+            ops.append(['p', rng.choice(PROBES)])      # after a possible Out of memory
     return ops
 
 
@@ -321,6 +370,17 @@ class History(object):
         ctx, ref = self.ctx, self.ref
         kind = op[0]
         ctx.count('op:' + kind)
+        if kind == 'p':
+            # resolve the probe into an ordinary line entry (kept in the op list for the replay)
+            n = probe_line(ctx.rng, sorted(ref), op[1])
+            tag = 900000 + i
+            ctx.count('probe:' + op[1])
+            op[:] = ['s', n, b'PRINT "T%d":END' % tag + ctx.rng.choice([b'', b':A=256', b':GOTO %d' % n, b":' probe"]),
+                     True, tag]
+            kind = 's'
+        if kind == 'f':
+            self.failing(i, op)
+            return
         # --- expected effect from the property statement
         may_oom = False
         if kind == 's':
@@ -392,6 +452,28 @@ class History(object):
             return
         self.ref = ref = expref
         self.observe(i, status)
+
+    def failing(self, i, op):
+        """A command that must be refused: an error message, and the program exactly as before."""
+        ctx = self.ctx
+        if op[1] == 'auto':
+            op[1] = failing_cmd(ctx.rng, sorted(self.ref))
+        cmd = op[1]
+        try:
+            out = self.s.execute(cmd)
+        except Exception as e:  # noqa
+            self.fail('exception:failing:%s' % type(e).__name__, i, '%r raised %r out of Session.execute' % (cmd, e))
+            return
+        ctx.case((self.profile, i, cmd))
+        ctx.count('failing:%s' % cmd.split(b' ')[0].decode('latin-1')[:8])
+        if not out.endswith(b'\xff\r\n') or out.count(b'\r\n') != 1:
+            self.fail('failing:not-refused', i, '%r answered %r, expected a single error message' % (cmd, out[:100]))
+            return
+        if len(op) > 2 and op[2] and op[2] not in out:
+            self.fail('failing:message', i, '%r answered %r, expected %r' % (cmd, out[:100], op[2]))
+            return
+        self.model_ops.append('x:0')
+        self.observe(i, 'e0')
 
     def renum(self, i, op):
         """RENUM [new][,[old][,step]]: checked structurally, then the reference is re-read (a RENUM rewrites
@@ -499,16 +581,20 @@ class History(object):
             self.fail('dict', i, 'line_numbers %r differ from the reference offsets %r'
                       % (sorted(ln.items())[:20], sorted(exp_off.items())[:20]))
             return
-        # fresh rescan by the real rebuild_line_dict: must reproduce the same index and leave the bytes alone
-        prog.rebuild_line_dict()
-        rs = dict(prog.line_numbers)
-        code2 = prog.bytecode.getvalue()
-        if rs != ln or code2 != code:
-            prog.bytecode.seek(0)
-            prog.bytecode.write(code)
-            prog.bytecode.truncate()
-            prog.line_numbers = ln
-            prog.code_size = size
+        # fresh rescan by the real rebuild_line_dict: must reproduce the same index and leave the bytes alone.
+        # It is run on a COPY of the bytes inside the scratch session's Program: calling it on the session under
+        # test would rebuild that session's bookkeeping after every operation and hide stale incremental state.
+        sp = self.scratch.s._impl.program
+        if sp.code_start != self.cs:
+            raise RuntimeError('scratch session has a different code_start')
+        sp.erase()
+        sp.bytecode.seek(0)
+        sp.bytecode.write(code)
+        sp.bytecode.truncate()
+        sp.rebuild_line_dict()
+        rs = dict(sp.line_numbers)
+        code2 = sp.bytecode.getvalue()
+        sp.erase()
         nonwf = [n for n in ref if not ref[n][4]]
         if nonwf and (rs != ln or code2 != code):
             # outside the theorems' hypothesis: the line holds a raw byte the scanner takes for a token
@@ -715,6 +801,12 @@ def renum_args(rng, nums):
     new = rng.choice(cand_new)
     if new is not None:
         new = min(65529, new)
+    if k >= 2 and rng.random() < 0.3:
+        # refused only when a LATER line is reached: line j (counted from 0) is the first to pass 65529
+        j = rng.randrange(1, k)
+        new = (kept[-1] + 1 if kept else rng.choice([1, 2, 10]))
+        new = min(new, 65000)       # (new >= 1 keeps the step an enterable number <= 65529)
+        step = (65529 - new) // j + 1
     return new, old, step
 
 
@@ -802,6 +894,39 @@ def fixed_histories():
     return hs
 
 
+def failing_family(quick):
+    """Deterministic family: (enter a small program, a command that must be refused, edits aimed at the top /
+    middle of the program, a range delete), for every refused command x every kind of follow-up edit."""
+    t = lambda k: b'PRINT "T%d":END' % k   # noqa
+    shapes = [[10, 20, 30, 40]] if quick else [[10, 20, 30, 40], [1, 2, 3], [100, 65000], [5, 6, 7, 8, 9, 10, 65529],
+                                                 [0, 256, 512, 32768, 65528]]
+    rounds, tag = [], 0
+    for lines in shapes:
+        k = len(lines)
+        refused = [['r', min(1, lines[0]), None, 65529],                 # the 2nd line would get a number > 65529
+                   ['r', 0, None, 65529 // (k - 1) + 1],                 # only the last line would
+                   ['r', lines[k // 2 - 1] + 1, lines[k // 2], 65529],   # the same with kept lines below `old`
+                   ['r', lines[0], lines[1], None],                      # a kept line at `new`
+                   ['r', lines[1], lines[-1], 1],                        # kept lines above `new`
+                   ['r', None, None, 0],
+                   ['d', lines[-1] + 1 if lines[-1] < 65529 else 65529, None] if lines[-1] < 65529 else ['d', 4, 4],
+                   ['d', lines[0] + 1, lines[1] - 1] if lines[1] - lines[0] > 1 else ['b', 4],
+                   ['b', lines[0] + 1 if lines[0] + 1 not in lines else 4],
+                   ['f', b'LOAD "NOSUCH"', b'File not found'], ['f', b'MERGE "NOSUCH"', b'File not found'],
+                   ['f', b'EDIT 4', b'Undefined line number'], ['f', b'AUTO 10,', b'Illegal function call'],
+                   ['f', b'65530 PRINT 1', b'Syntax error'], ['f', b'DELETE 10,20', b'Syntax error']]
+        for f in refused:
+            for probe in (('between-top', 'replace-top', 'between-any') if quick else
+                          ('between-top', 'replace-top', 'replace-second', 'between-any')):
+                ops = [['n']]
+                for n in lines:
+                    tag += 1
+                    ops.append(['s', n, t(tag), True, tag])
+                ops += [list(f), ['p', probe], ['p', 'replace-any'], ['d', lines[1], lines[-1]]]
+                rounds.append(ops)
+    return rounds
+
+
 def run(ctx):
     rng = ctx.rng
     scratch = Scratch()
@@ -809,8 +934,13 @@ def run(ctx):
     try:
         for profile, mm, ops in fixed_histories():
             hs.append(run_history(ctx, scratch, ops, mm, profile, sample_every=3))
+        fam = failing_family(ctx.quick)
+        for a in range(0, len(fam), 60):
+            hs.append(run_history(ctx, scratch, [op for r in fam[a:a + 60] for op in r], None, 'refused-then-edit',
+                                  sample_every=150, with_load=True))
+            ctx.count('history:refused-then-edit')
         if ctx.quick:
-            plan = [('mixed', None, 60, 28), ('renum', None, 60, 8), ('mixed', None, 300, 2), ('desc', None, 120, 2),
+            plan = [('mixed', None, 60, 24), ('renum', None, 60, 8), ('mixed', None, 300, 2), ('desc', None, 120, 2),
                     ('smallmem', 7000, 120, 4), ('smallmem', 5600, 60, 3)]
         else:
             plan = [('mixed', None, 60, 400), ('renum', None, 80, 150), ('mixed', None, 300, 40), ('mixed', None, 2000, 4), ('desc', None, 300, 12),
@@ -849,7 +979,7 @@ def replay(ctx, payload):
     case = payload.get('case') or {}
     if 'ops' not in case:
         return None
-    ops = [[o[0]] + [x.encode('latin-1') if isinstance(x, str) and j == 1 and o[0] == 's' else x
+    ops = [[o[0]] + [x.encode('latin-1') if isinstance(x, str) and ((j == 1 and o[0] == 's') or (o[0] == 'f' and x != 'auto')) else x
                      for j, x in enumerate(o[1:])] for o in case['ops']]
     sub = _Sub(ctx)
     scratch = Scratch()
